@@ -304,12 +304,15 @@ def _worker(prop, part_name, tier, seed, shard, nshards, outdir, scratch):
             part.prepare(tier)
 
         enumerated = part.enumerate is not None
+        # development aid: VERIF_COLLECT=1 buckets every violation by
+        # signature instead of stopping at the first one
+        collect = bool(os.environ.get('VERIF_COLLECT'))
 
         def handle(desc):
             res = part.run_case(desc)
             stats.record(desc, res, enumerated)
             if res.status == 'violation':
-                if res.sig is not None and res.sig in known:
+                if res.sig is not None and (res.sig in known or collect):
                     stats.known[res.sig] += 1
                     prev = stats.known_example.get(res.sig)
                     if prev is None or len(json.dumps(desc)) < len(
@@ -646,8 +649,18 @@ def main(argv):
     for m in results.values():
         knownhits.update(m['known'])
     for sig, n in sorted(knownhits.items()):
-        print(f'KNOWN-FINDING: property={prop} {known.get(sig, sig)} '
-              f'[sig={sig} hits={n}]')
+        if sig in known:
+            print(f'KNOWN-FINDING: property={prop} {known.get(sig, sig)} '
+                  f'[sig={sig} hits={n}]')
+    if os.environ.get('VERIF_COLLECT'):
+        for m in results.values():
+            for sig, ex in sorted(m['known_example'].items()):
+                if sig in known:
+                    continue
+                print(f'=== COLLECTED sig={sig} hits={m["known"][sig]}')
+                print(ex['detail'][-1200:])
+                print('    desc:', json.dumps(ex['desc'])[:600])
+        return 3
 
     if reported:
         for v in reported:
